@@ -66,6 +66,15 @@ func cmdList(args []string) {
 		fmt.Fprintln(os.Stderr, err)
 		os.Exit(2)
 	}
+	if len(args) == 2 && args[0] == "-p" {
+		// the functions the property's check examines
+		fns := e.funcsForProp(args[1])
+		sort.Strings(fns)
+		for _, n := range fns {
+			fmt.Println(n)
+		}
+		return
+	}
 	var names []string
 	for n := range e.funcs {
 		names = append(names, n)
